@@ -20,20 +20,36 @@ def parseRead : String → Option Read
   | "eq" => some .eq | "hash" => some .hash | "repr" => some .repr | "properties" => some .properties
   | _ => none
 
-/-- memo slots a read leaves filled (from the code: `cached_property` / `lru_cache` reached by the call);
-    the observable answers do not depend on this table (Props/C16 holds for every table) -/
-def fillsTable (k : Kind) (r : Read) : List Slot :=
-  let curved := k == .circle || k == .ellipse || k == .ring
-  match r with
-  | .bounds => [.bounds]
-  | .centroid => [.centroid]
-  | .area => [.area, .shapely]
-  | .volume => [.area, .shapely]
-  | .toShapely => [.shapely]
-  | .circRect => [.bounds]
-  | .circCircle => if curved then [] else [.centroid]
-  | .contains | .intersects => [.bounds]
+/-- which observations a kind memoises at all: `cached_property` `bounds` (polygon `structures.py:351`, circle
+    `:850`, ellipse `:967`, ring `:1216`, linestring `:1402`), `centroid` (polygon `:359`, linestring `:1410`, the
+    multi-shapes `multistructures.py:53, 259, 457`), `area` (`PolygonBase`, `structures.py:81`);
+    `to_shapely` is an `lru_cache` on every instance (`_base.py:499`) -/
+def memoSlots : Kind → List Slot
+  | .polygon => [.bounds, .centroid, .area, .shapely]
+  | .box => [.area, .shapely]
+  | .circle | .ellipse | .ring => [.bounds, .area, .shapely]
+  | .linestring => [.bounds, .centroid, .shapely]
+  | .point => [.shapely]
+  | .mpoint | .mline | .mpoly => [.centroid, .shapely]
+
+def Kind.polyLike (k : Kind) : Bool := k.hasHoles
+
+/-- memoised observations a read-only call (without argument) goes through, read off the code.
+    Predicates with an argument are data dependent (an early `return` may skip `self.bounds`) and are
+    not tied; every theorem of Props/C16 holds for *every* table. -/
+def triggers (k : Kind) (hasDt : Bool) : Read → List (Slot × List Slot)
+  | .bounds => [(.bounds, [])]
+  | .centroid => [(.centroid, [])]
+  | .area => if Kind.polyLike k then [(.area, [.shapely])] else []          -- `MultiGeoPolygon.area` sums the members
+  | .volume => if Kind.polyLike k && hasDt then [(.area, [.shapely])] else [] -- `if self.dt is None: return 0.`
+  | .toShapely => [(.shapely, [])]
+  | .circRect => if k == .polygon || k == .circle || k == .ellipse || k == .ring then [(.bounds, [])] else []
+  | .circCircle => if k == .linestring || k == .mpoint || k == .mline || k == .mpoly then [(.centroid, [])] else []
   | _ => []
+
+def fillsTable : FillTable := fun k hasDt r =>
+  ((triggers k hasDt r).filter (fun e => (memoSlots k).contains e.1)).map
+    fun e => (e.1, e.2.filter (fun s => (memoSlots k).contains s))
 
 def parseOp (s : String) : Option (Op Nat) :=
   match s.splitOn ":" with
@@ -66,8 +82,37 @@ end GV.Drv.C16
 namespace GV.Drv
 open GV GV.OS GV.Drv.C16
 
+/-- `sm.memo kind variant dt nh nseq ; op ; …` with `op := r:<read> | u:<mut>:<ip> | copy | pickle`:
+    after every step which of `bounds centroid area to_shapely` are memoised on the live object -/
+def memoFlags (o : Ob) : String :=
+  String.ofList ([Slot.bounds, .centroid, .area, .shapely].map fun s => if (o.cache s).isSome then 'T' else 'F')
+
+def handleMemo (hd : List String) (ops : List (List String)) : String :=
+  match hd with
+  | [kind, variant, dt, nh, nseq] =>
+      match parseKind kind, parseNat variant, parseTI dt, parseNat nh, parseNat nseq with
+      | some k, some v, some d, some h, some n =>
+          let s0 := init (mkFields k v d [] h n) (mkFields .point 0 none [] 0 0)
+          let step1 (s : St Nat Nat Nat) (o : String) : Option (St Nat Nat Nat) :=
+            if o == "copy" then let c := OS.copy s.heap s.obj; some { s with heap := c.1, obj := c.2 }
+            else if o == "pickle" then let c := OS.pickle s.heap s.obj; some { s with heap := c.1, obj := c.2 }
+            else (parseOp o).map (opStep fillsTable s)
+          let r := ops.foldl (fun (acc : Option (St Nat Nat Nat × List String)) o =>
+            match acc with
+            | none => none
+            | some (s, outs) =>
+                match step1 s (" ".intercalate o) with
+                | none => none
+                | some s' => some (s', memoFlags s'.obj :: outs)) (some (s0, [memoFlags s0.obj]))
+          match r with
+          | some (_, outs) => " ".intercalate outs.reverse
+          | none => "bad-op"
+      | _, _, _, _, _ => "bad-op"
+  | _ => "bad-op"
+
 def handleSM (op : String) (args : List String) : String :=
   match op, splitAt ";" args with
+  | "memo", hd :: ops => handleMemo hd ops
   | "run", hd :: ops =>
       match hd with
       | [kind, variant, area, dt, props, nh, nseq, akind, avariant] =>
